@@ -43,6 +43,17 @@ def get_argument_kind(arg: mp_nodes.Argument) -> ParameterAssignment:
         raise ValueError("Could not find an appropriate parameter assignment.")
 
 
+def get_conditional_branches(expr: mp_nodes.ConditionalExpr) -> list[mp_nodes.Expression]:
+    """Return the values a (possibly nested) conditional expression can have, e.g. a, b and c for "a if x else (b if y else c)"."""
+    branches: list[mp_nodes.Expression] = []
+    for branch in [expr.if_expr, expr.else_expr]:
+        if isinstance(branch, mp_nodes.ConditionalExpr):
+            branches.extend(get_conditional_branches(branch))
+        else:
+            branches.append(branch)
+    return branches
+
+
 def find_return_stmts_recursive(stmts: list[mp_nodes.Statement] | list[mp_nodes.Block]) -> list[mp_nodes.ReturnStmt]:
     return_stmts = []
     for stmt in stmts:
